@@ -86,6 +86,17 @@ func (h *indexedHeap) remove(idx int) (string, uint) {
 	return h.removeInternal(h.indices[idx])
 }
 
+// Remove the entry that tracks key, if there is one; returns the bytes it accounted for
+func (h *indexedHeap) removeKey(key string) uint {
+	for i := range h.entries {
+		if h.entries[i].key == key {
+			_, size := h.removeInternal(i)
+			return size
+		}
+	}
+	return 0
+}
+
 // Remove entry with lowest expiration time
 func (h *indexedHeap) removeFirst() (string, uint) {
 	return h.removeInternal(0)
